@@ -18,6 +18,8 @@
 // verif:init github.com/kubewharf/kubegateway/pkg/transport
 // verif:init net/textproto
 // verif:zeroglobal k8s.io/api/core/v1.SchemeGroupVersion
+// verif:zeroglobal k8s.io/apimachinery/pkg/api/validation.ValidateNamespaceName
+// verif:zeroglobal k8s.io/apimachinery/pkg/api/validation.ValidateServiceAccountName
 // verif:zeroglobal k8s.io/api/authentication/v1.SchemeGroupVersion
 // verif:replace k8s.io/apiserver/pkg/endpoints/handlers/responsewriters.InternalError => verifInternalError
 // verif:replace k8s.io/apiserver/pkg/endpoints/handlers/responsewriters.Forbidden => verifForbidden
@@ -32,6 +34,7 @@ import (
 	"net/http"
 	"net/url"
 
+	apivalidation "k8s.io/apimachinery/pkg/api/validation"
 	"k8s.io/apimachinery/pkg/runtime"
 	"k8s.io/apimachinery/pkg/runtime/serializer"
 	"k8s.io/apiserver/pkg/authentication/user"
@@ -135,8 +138,11 @@ func c02Suffix(key string) string {
 // HarnessC02Filter: authenticated user + client-supplied headers of the Impersonate-* family -> impersonation filter ->
 // impersonating transport wrapper. What is forwarded carries exactly the effective identity and no client-supplied
 // Impersonate-* header; denied / malformed impersonation is answered by the gateway.
-// verif:bounds authenticated user name 1..3 bytes, <= 1 group; client headers: optional Impersonate-User (<= 3 bytes), optional Impersonate-Group (1 value), optional Impersonate-Extra-<k> (k 1..2 lower-case letters, 1 value) and a second Impersonate-Extra-<k2> (k2 one other letter), optional Impersonate-<Word> with an arbitrary canonical one-word suffix (covers Uid), optional unrelated header; every authorizer answer symbolic
+// verif:bounds authenticated user name 1..3 bytes, <= 1 group; client headers: optional Impersonate-User (<= 3 arbitrary bytes or a well-formed service-account name), optional Impersonate-Group (1 value: <= 2 arbitrary bytes or one of system:serviceaccounts, system:serviceaccounts:ns, system:masters, system:authenticated), optional Impersonate-Extra-<k> (k 1..2 lower-case letters, 1 value) and a second Impersonate-Extra-<k2> (k2 one other letter), optional Impersonate-<Word> with an arbitrary canonical one-word suffix (covers Uid), optional unrelated header; every authorizer answer symbolic
 func HarnessC02Filter() {
+	// the name validators are package variables of k8s apimachinery: an arbitrary predicate stands in for them
+	apivalidation.ValidateNamespaceName = verifValidateName
+	apivalidation.ValidateServiceAccountName = verifValidateName
 	ghostC02Forwarded, ghostC02AuthCalls, ghostC02AllAllow = 0, 0, true
 	ghostC02Out, ghostC02OutUser = nil, nil
 	authName := nondetStringN("auth.name", vbound(2, 3))
@@ -149,11 +155,28 @@ func HarnessC02Filter() {
 	var impUser, impGroup, extraKey, extraVal, otherKey, otherVal string
 	hasUser, hasGroup, hasExtra, hasOther := nondetBool("h.user"), nondetBool("h.group"), nondetBool("h.extra"), nondetBool("h.other")
 	if hasUser {
-		impUser = nondetStringN("h.user.value", vbound(2, 3))
+		// an arbitrary short name, or a well-formed service-account name (the filter then derives groups itself)
+		if nondetBool("h.user.isServiceAccount") {
+			impUser = "system:serviceaccount:ns:sa"
+		} else {
+			impUser = nondetStringN("h.user.value", vbound(2, 3))
+		}
 		hdr["Impersonate-User"] = []string{impUser}
 	}
 	if hasGroup {
-		impGroup = nondetStringN("h.group.value", 2)
+		// an arbitrary short group, or one of the well-known groups a filter might be tempted to special-case
+		switch nondetRange("h.group.kind", 0, 4) {
+		case 0:
+			impGroup = nondetStringN("h.group.value", 2)
+		case 1:
+			impGroup = "system:serviceaccounts"
+		case 2:
+			impGroup = "system:serviceaccounts:ns"
+		case 3:
+			impGroup = "system:masters"
+		default:
+			impGroup = "system:authenticated"
+		}
 		hdr["Impersonate-Group"] = []string{impGroup}
 	}
 	if hasExtra {
